@@ -7,6 +7,7 @@ pub const TABLE: &[(&str, &str)] = &[
     ("TAB", "\t"),
     ("SP", " "),
     ("GAP", ""),
+    ("NSP", " "),
     ("NBSP", "\u{a0}"),
     ("TSP", "\u{2009}"),
     ("E2", "\u{e9}"),
@@ -82,7 +83,7 @@ pub fn self_check() {
     assert!('\u{2009}'.is_whitespace());
     assert!('\u{e9}'.is_alphabetic());
     for (k, v) in TABLE {
-        if v.chars().count() == 1 && !matches!(*k, "SP" | "L2" | "W2" | "W3" | "GAP") {
+        if v.chars().count() == 1 && !matches!(*k, "SP" | "NSP" | "L2" | "W2" | "W3" | "GAP") {
             assert_eq!(&char_to_sym(v.chars().next().unwrap()), k, "symbol table not invertible at {k}");
         }
     }
